@@ -99,6 +99,10 @@ func (d *Decoder) decodeBytesOfType(expected Type) ([]byte, error) {
 	if err != nil {
 		return nil, err
 	}
+	if int64(n) < 0 {
+		// io.CopyN treats a negative count as "nothing to copy" and succeeds.
+		return nil, fmt.Errorf("cbor: Length %d is too large", n)
+	}
 	bs := new(bytes.Buffer)
 	if _, err := io.CopyN(bs, d.r, int64(n)); err != nil {
 		return nil, err
